@@ -676,7 +676,11 @@ def nd_getattr(I, st, ref, name):
     elif name == "dtype":
         yield st, DtypeVal(dtype_of(e))
     elif name == "flat":
-        yield st, st.alloc(ListE(list(e.data)))  # iterator over the elements in row-major order
+        # numpy.flatiter: an ITERATOR over the elements in row-major order (next(), one pass); its indexing / assignment
+        # interface (a.flat[i]) is not modelled (values.IterE refuses subscripts)
+        from .values import IterE
+
+        yield st, st.alloc(IterE(list(e.data)))
     else:
         raise Unsupported("ndarray attribute " + name)
 
